@@ -57,6 +57,8 @@ def feed(arg):
 def model_step(a, q, d, c):
     """The table semantics in Python (mirror of AutomatonSem.EnabledSet / NextD) for comparing."""
     out = [t for t in a.trans if t[0] == q]
+    opened = [t for t in out if a.open[(t[1], d[t[1]])]]
+    out = opened or out
     en = [t for t in out if a.acc[(t[1], d[t[1]], c)][0]]
     nd = dict(d)
     for t in out:
@@ -134,7 +136,7 @@ def run(tier: str) -> int:
             raise MachineryError(f"model/code successor mismatch at {(a.desc, q, d, a.classes[c - 1])}: model {exp_next}, code {o['next']}")
         if en:
             for pi, dv in o["depths"].items():
-                if pi in {t[1] for t in a.trans if t[0] == q} and nd[pi] != max(-1, min(extract.MAXD, dv)):
+                if nd[pi] != max(-1, min(extract.MAXD, dv)):
                     raise MachineryError(f"model/code counter mismatch at {(a.desc, q, d, a.classes[c - 1])}: model {nd}, code {o['depths']}")
     if len(amb_model) > 0 and code_amb == 0:
         raise MachineryError("TokenAutomaton reports ambiguous configurations that the real Pattern does not reproduce")
